@@ -741,3 +741,56 @@ def defs_insert_position(H):
         H.prove(ids == sorted(ids), "defs.new_element_goes_before_the_first_greater_id", detail=str(ids))
     else:
         H.prove(ids == sorted(ids), "defs.greater_than_all_goes_last", detail=str(ids))
+
+
+@obligation(("C08", "C02", "C03"), "nested.siblings", functions=["svg.SVG.resolve_nested_svgs", "svg.SVG._unnest_svg", "svg.SVG._swap_elements", "svg.SVG._new_id"])
+def nested_siblings(H):
+    """resolve_nested_svgs with several nested svgs on one level (two siblings at the root, one inside a group) and one
+    clipPath id of the same family already taken: every viewport clipPath gets an id of its own (each choice of a fresh id
+    must see the clipPaths inserted before it), every clipping group refers to ITS clipPath, whose rectangle is ITS viewport;
+    the nested svgs are gone, their content is where they were; the receiver is returned."""
+    if H.mode == "concrete":
+        doc = ('<svg xmlns="http://www.w3.org/2000/svg" viewBox="0 0 100 100"><svg x="1" y="2" width="10" height="10"><rect width="5" height="5"/></svg><g><svg x="30" width="20" height="20"><rect width="5" height="5"/></svg></g>'
+               '<svg x="60" y="60" width="30" height="30"><rect width="5" height="5"/></svg></svg>')
+        out = SVG.fromstring(doc).resolve_nested_svgs()
+        ids = [e.attrib["id"] for e in out.xpath("//svg:clipPath")]
+        H.prove(len(ids) == 3 and len(set(ids)) == 3, "nested.every_viewport_clip_has_its_own_id", detail=str(ids))
+        return
+    fake_tree.install(H)
+    fake_tree.install_xpath(H, SVG)
+    _install_transform_tokens(H)
+    mk = lambda x, y, w, h, tag: _el("svg", {"x": x, "y": y, "width": w, "height": h}, [_el("path", {"d": "M0,0", "id": tag})])
+    a, b, c = mk("1", "2", "10", "11", "pa"), mk("30", "0", "20", "21", "pb"), mk("60", "61", "30", "31", "pc")
+    group = _el("g", {"opacity": "0.5"}, [b])
+    taken = _el("clipPath", {"id": "nested-svg-viewport-0"}, [_el("rect", {"width": "1", "height": "1"})])
+    root = _el("svg", {"viewBox": "0 0 100 100"}, [taken, a, group, c])
+    svg = SVG(root)
+    res, e = H.catch(SVG.resolve_nested_svgs, svg, inplace=True)
+    H.prove(e is None and res is svg, "nested.no_exception_returns_the_receiver", detail=repr(e))
+    if e is not None:
+        return
+    everything = list(root.iterdescendants())
+    H.prove(not any(local(k) == "svg" for k in everything), "nested.no_nested_svg_left")
+    cps = [k for k in everything if local(k) == "clipPath" and k is not taken]
+    ids = [k.attrib.get("id") for k in cps]
+    H.prove(len(cps) == 3 and len(set(ids + ["nested-svg-viewport-0"])) == 4, "nested.every_viewport_clip_has_its_own_id", detail=str(ids))
+    for tag, (x, y, w, h), parent in (("pa", (1, 2, 10, 11), root), ("pb", (30, 0, 20, 21), group), ("pc", (60, 61, 30, 31), root)):
+        leaf = next((k for k in everything if k.attrib.get("id") == tag), None)
+        chain = []
+        k = leaf
+        while k is not None and k is not parent:
+            chain.append(k)
+            k = k.getparent()
+        holders = [k for k in chain if "clip-path" in k.attrib]
+        ok = leaf is not None and k is parent and len(holders) == 1
+        H.prove(ok, "nested.content_stays_where_the_nested_svg_was_under_one_clipping_group", detail=tag)
+        if not ok:
+            continue
+        ref = holders[0].attrib["clip-path"]
+        mine = [cp for cp in cps if f"url(#{cp.attrib.get('id')})" == ref]
+        ok = len(mine) == 1 and len(mine[0]) == 1 and local(list(mine[0])[0]) == "rect"
+        H.prove(ok, "nested.clipping_group_refers_to_its_own_clipPath", detail=f"{tag}: {ref} among {ids}")
+        if ok:
+            ra = list(mine[0])[0].attrib
+            val = lambda n: float(ra[n]) if n in ra else 0.0
+            H.prove((val("x"), val("y"), val("width"), val("height")) == (x, y, w, h), "nested.own_clipPath_is_the_own_viewport", detail=str(dict(ra)))
